@@ -378,6 +378,9 @@ func vndIntrinsic(in *Interp, st *State, fn *ssa.Function, args []Value, retTo s
 			in.sol.Push()
 			in.sol.Assert(nc)
 			r = in.sol.Check()
+			if in.slowMs > 0 && in.sol.LastQuery.Milliseconds() > int64(in.slowMs) {
+				fmt.Printf("SLOWQ %dms assert %q -> %s\n", in.sol.LastQuery.Milliseconds(), l, r)
+			}
 			if in.second != "" && r != "unknown" {
 				second = oneShot(in.second, in.sol.flatText(""), in.sol.timeout)
 				in.eng.noteSecond(r, second)
@@ -698,10 +701,12 @@ func timeNow(in *Interp, st *State, fn *ssa.Function, args []Value, retTo ssa.Va
 	in.addConstraint(st, tf.Cmp("bvult", nsec, tf.ConstU(30, 1000000000)))
 	in.addConstraint(st, tf.Cmp("bvule", tf.ConstU(33, 3630000000), sec))
 	in.addConstraint(st, tf.Cmp("bvule", sec, tf.ConstU(33, 6780000000)))
+	// the wall clock does not go backwards either (seconds and nanoseconds together)
+	ws := tf.Concat(sec, nsec)
 	if st.lastWall != nil {
-		in.addConstraint(st, tf.Cmp("bvule", st.lastWall, sec))
+		in.addConstraint(st, tf.Cmp("bvule", st.lastWall, ws))
 	}
-	st.lastWall = sec
+	st.lastWall = ws
 	wall := tf.Concat(tf.ConstU(1, 1), tf.Concat(sec, nsec))
 	return Struct{F: []Value{wall, mono, nilPtr}}, true
 }
